@@ -6,6 +6,7 @@ import GoomVerif.Model.Patch
 
   steps: `a b via t k [o]` apply callback k, `r|w b via t v [o]` Return / When(..).Return, `c b via t` Cancel, `x b` Reset;
   via ∈ f (Func) e (ExportFunc) m (Struct.Method) u (Struct.ExportMethod) v (Func of a method value, the `-fm` by-name path);
+  `K b` keeps `sm := b.Struct(x)`; `sa|sr|sw|sc|sk b via t ..` are a/r/w/c/k through the kept struct mocker (via m or u);
   `k b via t` looks the mocker up and keeps the handle, `A b via t k` / `R b via t v` / `C b via t` act through the kept handle.
   Answer: per step `<ok|panic:class> d=<symbolic diff of .text> b=<behaviour of every target> n=<neighbours>`, then
   `end d=<diff after Reset of every builder>`. -/
@@ -83,27 +84,38 @@ def viaCode : String → Option Nat
 
 def isMethod (t : Nat) : Bool := t ≥ 7   -- targets 7.. are the methods of T (harness/c02/targets.go)
 
+/-- vias m (Struct(x).Method) and u (Struct(x).ExportMethod) go through the builder's struct mocker -/
+def isStructVia (v : Nat) : Bool := v == 2 || v == 3
+
 def parseStep (d : DEnv) (toks : List String) : Option Op :=
   let chk (b t : Nat) (via : Nat) (o : Option Nat) : Bool :=
     b < d.nB && t < d.nT && (via < 2 || isMethod t) && via < 5 &&
     (match o with | some j => j < d.nP && ((j == 3) == isMethod t) | none => true)
+  -- `kept`: through the kept struct mocker (tokens sa/sr/sw/sc/sk) instead of a fresh Struct(x) lookup
+  let mk (kind : String) (kept : Bool) (b v t k : Nat) (o : Option Nat) : Option Op :=
+    let key := v * 1000 + t
+    let kk := if isMethod t then 4 + k else k
+    if kept && !isStructVia v then none else
+    match kind with
+    | "a" => if k < 4 then some (if isStructVia v then .sapply b key kk o kept else .apply b key kk o) else none
+    | "r" => some (if isStructVia v then .sret b key o kept else .ret b key o)
+    | "w" => if (isMethod t && v != 2) || t == 5 then none else some (if isStructVia v then .sret b key o kept else .ret b key o)
+    | "c" => some (if isStructVia v then .scancel b key kept else .cancel b key)
+    | "k" => some (if isStructVia v then .skeep b key kept else .keep b key)
+    | _ => none
   match toks with
   | ["x", b] => do let b ← b.toNat?; if b < d.nB then pure (.reset b) else none
-  | ["c", b, via, t] => do
+  | ["K", b] => do let b ← b.toNat?; if b < d.nB then pure (.keepS b) else none
+  | [kind, b, via, t] => do
     let b ← b.toNat?; let v ← viaCode via; let t ← t.toNat?
-    if chk b t v none then pure (.cancel b (v * 1000 + t)) else none
-  | ["k", b, via, t] => do
-    let b ← b.toNat?; let v ← viaCode via; let t ← t.toNat?
-    if chk b t v none then pure (.keep b (v * 1000 + t)) else none
-  | ["C", b, via, t] => do
-    let b ← b.toNat?; let v ← viaCode via; let t ← t.toNat?
-    if chk b t v none then pure (.cancelH b (v * 1000 + t)) else none
-  | ["A", b, via, t, k] => do
-    let b ← b.toNat?; let v ← viaCode via; let t ← t.toNat?; let k ← k.toNat?
-    if chk b t v none && k < 4 then pure (.applyH b (v * 1000 + t) (if isMethod t then 4 + k else k)) else none
-  | ["R", b, via, t, _] => do
-    let b ← b.toNat?; let v ← viaCode via; let t ← t.toNat?
-    if chk b t v none then pure (.retH b (v * 1000 + t)) else none
+    if !chk b t v none then none
+    match kind with
+    | "c" => mk "c" false b v t 0 none
+    | "k" => mk "k" false b v t 0 none
+    | "sc" => mk "c" true b v t 0 none
+    | "sk" => mk "k" true b v t 0 none
+    | "C" => pure (.cancelH b (v * 1000 + t))
+    | _ => none
   | kind :: b :: via :: t :: k :: rest => do
     let b ← b.toNat?; let v ← viaCode via; let t ← t.toNat?; let k ← k.toNat?
     let o ← match rest with
@@ -112,9 +124,14 @@ def parseStep (d : DEnv) (toks : List String) : Option Op :=
       | _ => none
     if !chk b t v o then none
     match kind with
-    | "a" => if k < 4 then pure (.apply b (v * 1000 + t) (if isMethod t then 4 + k else k) o) else none
-    | "r" => pure (.ret b (v * 1000 + t) o)
-    | "w" => if (isMethod t && v != 2) || t == 5 then none else pure (.ret b (v * 1000 + t) o)
+    | "A" => if k < 4 && o.isNone then pure (.applyH b (v * 1000 + t) (if isMethod t then 4 + k else k)) else none
+    | "R" => if o.isNone then pure (.retH b (v * 1000 + t)) else none
+    | "a" => mk "a" false b v t k o
+    | "r" => mk "r" false b v t k o
+    | "w" => mk "w" false b v t k o
+    | "sa" => mk "a" true b v t k o
+    | "sr" => mk "r" true b v t k o
+    | "sw" => mk "w" true b v t k o
     | _ => none
   | _ => none
 
@@ -141,6 +158,10 @@ def runHist (d : DEnv) (steps : List (List String)) : String :=
           | .applyH b key _ => (s.handle b key).isNone
           | .retH b key => (s.handle b key).isNone
           | .cancelH b key => (s.handle b key).isNone
+          | .sapply b _ _ _ true => (s.shandle b).isNone
+          | .sret b _ _ true => (s.shandle b).isNone
+          | .scancel b _ true => (s.shandle b).isNone
+          | .skeep b _ true => (s.shandle b).isNone
           | _ => false
         if noHandle then (s, "bad-op" :: acc, false) else
         let (s1, e) := step d.env s op
